@@ -90,3 +90,22 @@ Theorem C08_processed_prefix :
   end.
 Proof. exact processed_prefix. Qed.
 Print Assumptions C08_processed_prefix.
+
+(* The same for jsonline's own importer and exporter of any two templates (row / template model with the text
+   layer of JL.std.GoJson) instead of abstract per-line functions: whatever the templates and whatever
+   the lines contain, a reader failure at any offset or an over-long line is reported, and every
+   Write is one complete line — which C01_export_line shows to be one JSON object and one LF. *)
+From JL.std Require Import GoVal.
+From JL.model Require Import Row Template TemplateJson Jl.
+From JL.proofs Require Import JlProofs.
+
+Theorem C08_no_silent_loss_jsonline :
+  forall (O : oracles) jfloat jother (ti to : template)
+         (wf : nat -> option Z) (proc : nat -> option eclass -> option eclass)
+         (C : Z) (s : str) (k : option Z) (r : sres) (evs : list event),
+  (exists x, k = Some x /\ 0 <= x <= lenZ s) \/ (exists l, In l (raw_lines s) /\ C <= lenZ l) ->
+  Stream crow (jl_import O ti) (jl_export O jfloat jother to) wf proc C s k = (r, evs) ->
+  r <> ROk \/ In (EvCall (Some EcRead)) evs \/ In (EvCall (Some EcTooLong)) evs.
+Proof. intros. eapply no_silent_loss; eauto. Qed.
+Print Assumptions C08_no_silent_loss_jsonline.
+
